@@ -144,3 +144,25 @@ def with_projections(lines):
     for i, s in enumerate(sc):
         out.append("trk cmp 0 %d %d" % (i + 1, s))
     return out
+
+
+def unbatch(lines):
+    """the same history for the corresponding simple tracker: every scene of a batch gets its own call"""
+    out = []
+    for l in lines:
+        t = l.split()
+        if t[1] == "new":
+            t[2] = {"bsort": "sort", "bvisual": "visual"}.get(t[2], t[2])
+            out.append(" ".join(t))
+        elif t[1] == "predict":
+            ns = int(t[2]); pos = 3
+            for _ in range(ns):
+                n = int(t[pos + 1])
+                body = t[pos:pos + 2 + 7 * n]
+                pos += 2 + 7 * n
+                out.append("trk predict 1 " + " ".join(body))
+        elif t[1] == "consumer":
+            continue
+        else:
+            out.append(l)
+    return out
